@@ -117,6 +117,8 @@ def mk_body(b):
         def read(self, n=-1):
             if n is None or n < 0:
                 n = len(self.data)
+            if f.get("short") and n > 0:
+                n = min(n, f["short"])          # a pipe or socket file: fewer bytes than asked for, never none before the end
             out = self.data[self.pos:self.pos + n]
             self.pos = min(len(self.data), self.pos + n)
             return out
@@ -153,6 +155,12 @@ def mk_body(b):
     if f["has_seek"]:
         o.seek = core.seek
     return o
+
+
+def in_model_domain(case):
+    """the model's file objects fill every block: a file whose read() returns short blocks is judged by the oracle only"""
+    b = case["body"]
+    return not (b[0] == "file" and b[1].get("short"))
 
 
 _STASH = {}
@@ -455,7 +463,8 @@ def rand_body(rng, bs):
         text = rng.random() < 0.35
         r = rng.random()
         return ["file", {"text": text, "data": rand_text(rng, n) if text else rand_bytes(rng, n), "pos": rng.choice([0, 0, 1, bs, n]),
-                         "has_tell": r > 0.15, "tell_ok": rng.random() > 0.15, "has_seek": r > 0.15 and rng.random() > 0.1, "seek_ok": rng.random() > 0.15}]
+                         "has_tell": r > 0.15, "tell_ok": rng.random() > 0.15, "has_seek": r > 0.15 and rng.random() > 0.1, "seek_ok": rng.random() > 0.15,
+                         "short": (rng.choice([1, 3, 7]) if (not text and rng.random() < 0.2) else 0)}]
     chunks = []
     for _ in range(rng.randint(0, 4)):
         c = rng.random()
@@ -491,6 +500,7 @@ def cases(rng, tier):
         text = "".join("aé€\U0001f600"[i % 4] for i in range(n))
         kinds += [["bytes", data], ["str", text], ["buffer", 1, data], ["buffer", 2, data[:n - n % 2]],
                   ["file", {"text": False, "data": data, "pos": 0, "has_tell": True, "tell_ok": True, "has_seek": True, "seek_ok": True}],
+                  ["file", {"text": False, "data": data, "pos": 0, "has_tell": True, "tell_ok": True, "has_seek": True, "seek_ok": True, "short": 3}],
                   ["file", {"text": False, "data": data, "pos": min(1, n), "has_tell": True, "tell_ok": True, "has_seek": True, "seek_ok": True}],
                   ["file", {"text": True, "data": text, "pos": 0, "has_tell": True, "tell_ok": True, "has_seek": True, "seek_ok": True}],
                   ["file", {"text": False, "data": data, "pos": 0, "has_tell": True, "tell_ok": False, "has_seek": True, "seek_ok": True}],
